@@ -57,6 +57,13 @@ Proof. exact ProofsPure.bsearch_spec. Qed.
 Theorem C06_bmap : forall ops st, ksorted (mv st) -> Forall op_wf ops ->
   run bmap_step st ops = run fmap_step st ops.
 Proof. exact bmap_refines. Qed.
+(* DeleteFunc with a callback that reads the LIVE size of the map (del = fun _ _ => g (len m)): deleting during the range
+   loop removes the first d visited pairs, d = how long g stays true while the size counts down, and the callback sees the
+   sizes n, n-1, ..., n-d, n-d, ... - the figures the checker demands of the real map whatever its iteration order *)
+Theorem C06_live_delete : forall g l, ksorted l ->
+  delete_live g l l = (skipn (drops g (length l) (length l)) l, live_trace g (length l) (length l)).
+Proof. exact delete_live_spec. Qed.
+
 Theorem C06_fmap_laws : forall k k' v m,
   a_get k (a_set k' v m) = (if k =? k' then Some v else a_get k m)
   /\ (ksorted m -> a_get k (a_del k' m) = if k =? k' then None else a_get k m)
@@ -123,6 +130,7 @@ Print Assumptions C06_certain_cap.
 Print Assumptions C06_detach.
 Print Assumptions C06_search.
 Print Assumptions C06_bmap.
+Print Assumptions C06_live_delete.
 Print Assumptions C06_fmap_laws.
 Print Assumptions C06_D9_unrepaired_refuted.
 Print Assumptions C06_D10_unrepaired_refuted.
